@@ -85,8 +85,22 @@ def coq_stage(prop):
         return res
     # Print Assumptions audit: one block per theorem, in order
     closed = len(re.findall(r"Closed under the global context", out))
-    ax = re.findall(r"^([A-Za-z_][\w.]*)\s*:", "\n".join(re.findall(r"Axioms:\n((?:.+\n?)+?)(?:\n|$)", out)), flags=re.M)
-    ax_blocks = len(re.findall(r"^Axioms:", out, flags=re.M))
+    ax = []
+    ax_blocks = 0
+    inblock = False
+    for line in out.split("\n"):
+        if line.startswith("Axioms:"):
+            inblock = True
+            ax_blocks += 1
+            continue
+        if inblock:
+            m = re.match(r"^([A-Za-z_][\w.']*)\s*(:.*)?$", line)
+            if m:
+                ax.append(m.group(1))
+            elif line.startswith(" ") or line.startswith("\t"):
+                continue          # continuation of a type
+            else:
+                inblock = False
     res["axioms"] = sorted(set(ax))
     notallowed = [a for a in set(ax) if a not in ALLOWED_AXIOMS or prop not in P.AXIOM_PROPS]
     if notallowed:
